@@ -1,6 +1,7 @@
 package isaacdatabase
 
 import (
+	"bytes"
 	"context"
 	"math"
 
@@ -371,7 +372,21 @@ func (db *LeveldbPermanent) mergeTempDatabaseFromLeveldb(ctx context.Context, te
 	batch := pst.NewBatch()
 	defer batch.Reset()
 
+	// NOTE the BlockMap key is the commit point of the merge; the last height of
+	// the permanent database is loaded from it. It is stored alone, after every
+	// other key of the block was stored.
+	mpkey := leveldbBlockMapKey(temp.mp.Manifest().Height())
+
+	var mpvalue []byte
+
 	if err := tpst.Iter(nil, func(k, v []byte) (bool, error) {
+		if bytes.Equal(k, mpkey) {
+			mpvalue = make([]byte, len(v))
+			copy(mpvalue, v)
+
+			return true, nil
+		}
+
 		if batch.Len() == db.batchlimit {
 			b := batch
 
@@ -402,6 +417,14 @@ func (db *LeveldbPermanent) mergeTempDatabaseFromLeveldb(ctx context.Context, te
 	worker.Done()
 
 	if err := worker.Wait(); err != nil {
+		return e.Wrap(err)
+	}
+
+	if mpvalue == nil {
+		return e.Wrap(storage.ErrNotFound.Errorf("blockmap not found in LeveldbTempDatabase"))
+	}
+
+	if err := pst.Put(mpkey, mpvalue, nil); err != nil {
 		return e.Wrap(err)
 	}
 
